@@ -97,7 +97,9 @@ JudgeEvent(ev) ==
 
 \* fragments of the context: well-typed and using only fragments the context permits
 Relevant(ev) ==
-  /\ ev.have /\ TypeOf(ev.ast, ev.ctx).ok /\ NodeCount(ev.ast) <= MaxN
+  /\ ev.have /\ TypeOf(ev.ast, ev.ctx).ok
+  \* the exhaustive part up to MaxN nodes, plus the sampled wrapper closure above it
+  /\ ((ev.dom = "wt" /\ NodeCount(ev.ast) <= MaxN) \/ ev.dom = "wrap")
   /\ (ev.ctx \in {"legacy", "bare"} => ~HasFrag(ev.ast, "or_i") /\ ~HasFrag(ev.ast, "d"))
 
 =============================================================================
